@@ -141,6 +141,17 @@ def gen_calls(rng: random.Random, w: int) -> List[dict]:
         starts += [(1 << (w - lw)) - 2, (1 << (w - lw)), 1 << 31]
     if w == 64:
         starts += [1 << 40, (1 << 58) - 2, (1 << 63), (1 << 64) - 2, (1 << 64) - 4]
+    if w >= 16 and rng.random() < 0.08:
+        # several segments with long zero tails (kept as ranges, not as words), listed in descending or shuffled address order
+        k = rng.choice([2, 3])
+        bases = {16: [0, 1200, 2400], 32: [0, 4096, 1 << 20], 64: [0, 1 << 14, 1 << 40]}[w]
+        bases = rng.sample(bases, k)
+        if rng.random() < 0.5:
+            bases.sort(reverse=True)
+        calls = [{"op": "data", "words": [word() for _ in range(2 * k)]}]
+        for i, b in enumerate(bases):
+            calls.append({"op": "seg", "s": b, "l": 2 + rng.choice([1000, 1002, 1100]), "ds": 2 * i, "dl": 2})
+        return calls
     nseg = rng.choice([1, 1, 2, 2, 3])
     used_ds = []
     if rng.random() < 0.12 and pool >= 4:
